@@ -22,7 +22,7 @@ from .common import (answer, canon_data, dt_to_us, err_kind, ev_tuple, hx, mk_ev
                      us_to_dt)
 
 BACKENDS = ("memory", "sqlite", "peewee")
-WRITE_OPS = {"create", "update", "delbucket", "insert", "bulk", "replace", "replacelast", "delete"}
+WRITE_OPS = {"create", "create_bad", "update", "delbucket", "insert", "bulk", "replace", "replacelast", "delete"}
 
 
 def tmp_root():
@@ -161,6 +161,16 @@ class Runner:
                                      created=us_to_dt(m["created_us"], m.get("created_off", 0)), name=m.get("name"),
                                      data=json.loads(m["data"]) if m.get("data") is not None else None)
                     out = ["ok"]
+                elif k == "create_bad":
+                    # a creation the store must reject (and leave no trace of): the creation time is not a datetime,
+                    # or (SQL backends) a NOT NULL metadata field is None
+                    if op[2] == "created":
+                        ds.create_bucket(op[1], "t", "c", "h", created="not-a-datetime")
+                    elif self.backend != "memory":
+                        ds.create_bucket(op[1], None, "c", "h", created=us_to_dt(0))
+                    else:
+                        raise ValueError("not applicable to the memory backend")
+                    out = ["accepted"]
                 elif k == "update":
                     kw = dict(op[2])
                     if "data" in kw and kw["data"] is not None:
@@ -249,6 +259,8 @@ class Runner:
                 raise
             except Exception as e:  # outcome of the real code
                 out = ["err", err_kind(e)]
+                if k == "create_bad":
+                    out = ["rejected"]
                 if k == "insert" and op[2][0] is None:
                     refs.append(None)
             outs.append(out)
@@ -291,6 +303,8 @@ def model_lines(backend, resolved, with_dumps=True):
                 data = canon_data(json.loads(data))
             L.append(pre + "update " + " ".join([hx(op[1]), p_opt(u.get("type"), hx), p_opt(u.get("client"), hx),
                                                  p_opt(u.get("hostname"), hx), p_opt(u.get("name"), hx), p_opt(data, hx)]))
+        elif k == "create_bad":
+            L.append(pre + f"lookup {hx(op[1])}")  # the model does nothing for a rejected creation (a read keeps the lines aligned)
         elif k in ("delbucket", "lookup", "metadata"):
             L.append(pre + f"{k} {hx(op[1])}")
         elif k == "buckets":
@@ -344,7 +358,9 @@ def model_out(backend, resolved, answers, idx):
     for op, (li, di) in zip(resolved, idx):
         a = answers[li]
         k = op[0]
-        if a.startswith("err "):
+        if k == "create_bad":
+            outs.append(["rejected"])
+        elif a.startswith("err "):
             outs.append(["err", a.split()[1]])
         else:
             t = answer(a)
